@@ -261,6 +261,38 @@ func (c *ctx) shapeFacts() {
 		{"os.Remove", "Remove"}, {"os.Rename", "Rename"}, {"os.Create", "Create"}, {"os.OpenFile", "OpenFile"}, {"ioutil.WriteFile", "WriteFile"}, {"os.WriteFile", "WriteFile"}})
 	c.lean.WriteString("/-- file operations of `LocalStore.StoreChunk`, in source order -/\n")
 	c.emitShape("shape_local_StoreChunk", "localStoreChunkShape", sh, fd != nil)
+
+	// chunkstorage.go StoreChunk
+	fd = c.funcDecl(c.files, "ChunkStorage", "StoreChunk")
+	sh = c.callShape(fd, [][2]string{
+		{"s.markProcessed", "markProcessed"}, {"s.ws.HasChunk", "HasChunk"}, {"s.unmarkProcessed", "unmarkProcessed"}, {"s.ws.StoreChunk", "StoreChunk"}})
+	c.lean.WriteString("/-- `ChunkStorage.StoreChunk`: calls in source order (the un-mark sits in a deferred closure before the store call) -/\n")
+	c.emitShape("shape_chunkstorage_StoreChunk", "chunkStorageShape", sh, fd != nil)
+
+	// cmd/desync/extract.go writeWithTmpFile: temp file in the target's directory, assemble, rename only on success
+	fd = c.funcDecl(c.cmd, "", "writeWithTmpFile")
+	sh = c.callShape(fd, [][2]string{
+		{"tempfile.NewMode", "TempFile"}, {"os.Remove", "Remove"}, {"writeInplace", "Assemble"}, {"os.Rename", "Rename"}, {"os.Create", "Create"}, {"os.OpenFile", "OpenFile"}})
+	guarded := false
+	if fd != nil {
+		walk(fd.Body, func(n ast.Node) bool {
+			ifs, ok := n.(*ast.IfStmt)
+			if !ok || ifs.Init == nil {
+				return true
+			}
+			if strings.Contains(exprString(ifs.Init.(*ast.AssignStmt).Rhs[0]), "writeInplace") && strings.Contains(exprString(ifs.Cond), "err!=nil") {
+				for _, st := range ifs.Body.List {
+					if _, ok := st.(*ast.ReturnStmt); ok {
+						guarded = true
+					}
+				}
+			}
+			return true
+		})
+	}
+	c.lean.WriteString("/-- `writeWithTmpFile` (extract without --in-place): calls in source order -/\n")
+	c.emitShape("shape_extract_tmpfile", "extractTmpFileShape", sh, fd != nil)
+	fmt.Fprintf(&c.lean, "/-- a failed assembly returns before the rename -/\ndef extractTmpFileReturnsOnError : Bool := %v\n", guarded)
 }
 
 // pool shapes: what the feeder does on ctx.Done() and how the result is computed
